@@ -11,7 +11,7 @@ import (
 // its (final) body refers to. The reference crawler reads only declarations.
 type Node struct {
 	URL      string            `json:"url"`
-	Kind     string            `json:"kind"` // html | bin | m3u8 | redirect | status | fail5xx | fail5xx-big | flaky | refuse | cut | badpdf | emptyxml
+	Kind     string            `json:"kind"` // html | bin | m3u8 | redirect | status | fail5xx | fail5xx-big | flaky | refuse | cut | stall | badpdf | emptyxml
 	Refs     []string          `json:"refs,omitempty"`
 	Links    []string          `json:"links,omitempty"` // anchors of an html page: outlinks when the hop limit allows, never fetched for this seed
 	Location string            `json:"location,omitempty"`
@@ -65,6 +65,9 @@ func (d *SiteDef) Build() Site {
 			p.Script = []Resp{{Status: 200, Header: map[string]string{"Content-Type": "image/png"}, Body: pngMagic}}
 		case "m3u8":
 			p.Script = []Resp{{Status: 200, Header: map[string]string{"Content-Type": "application/vnd.apple.mpegurl"}, Body: m3u8Body(n.Refs)}}
+		case "wall": // a cookie wall: the first request is redirected to the same URL, the second gets the page
+			p.Script = []Resp{{Status: 302, Header: map[string]string{"Location": n.URL}, Body: ""},
+				{Status: 200, Header: map[string]string{"Content-Type": "text/html; charset=utf-8"}, Body: htmlBody(n.Refs, n.Links...)}}
 		case "redirect":
 			code := n.Code
 			if code == 0 {
@@ -96,6 +99,8 @@ func (d *SiteDef) Build() Site {
 			p.Script = []Resp{{Status: 200, Header: map[string]string{"Content-Type": "application/xml"}, Body: ""}}
 		case "cut": // headers arrive, the connection breaks in the middle of the body
 			p.Script = []Resp{{Status: 200, Header: map[string]string{"Content-Type": "image/png"}, Body: pngMagic + strings.Repeat("\x00", 4096), CutAt: 100}}
+		case "stall": // headers and 100 bytes arrive, then silence: the read times out, and so does every further read
+			p.Script = []Resp{{Status: 200, Header: map[string]string{"Content-Type": "image/png"}, Body: pngMagic + strings.Repeat("\x00", 4096), CutAt: 100, CutErr: "timeout"}}
 		}
 		if n.DelayMs > 0 {
 			for i := range p.Script {
@@ -167,7 +172,10 @@ func retryable(c int) bool { return c >= 500 || c == 408 || c == 425 || c == 429
 // whose path is empty or "/", attempt each URL <= MaxRetry+1 times.
 func (d *SiteDef) Reference(seed string, opt Options) *Expect {
 	e := &Expect{Seed: seed, Attempts: map[string]int{}}
+	// inTree: URLs of the non-root nodes. Zeno's de-duplication never compares a node with the seed itself: a
+	// redirection back onto the seed's URL is followed once more (and its own target is then a duplicate)
 	inTree := map[string]bool{}
+	visits := map[string]int{}
 	type job struct {
 		raw       string
 		parent    *url.URL
@@ -212,10 +220,15 @@ func (d *SiteDef) Reference(seed string, opt Options) *Expect {
 			if u.Path == "" {
 				u.Path = "/"
 			}
-			if inTree[u.String()] {
-				continue
+			if j.kind == "asset" && j.parent != nil && u.String() == j.parent.String() {
+				continue // a page's reference to itself is not an asset
 			}
-			inTree[u.String()] = true
+			if j.kind != "seed" {
+				if inTree[u.String()] {
+					continue
+				}
+				inTree[u.String()] = true
+			}
 			todo = append(todo, resolved{j, u})
 		}
 		for _, r := range todo {
@@ -231,8 +244,13 @@ func (d *SiteDef) Reference(seed string, opt Options) *Expect {
 				attempts++
 				code := 404
 				switch kind {
-				case "html", "bin", "m3u8", "cut", "badpdf", "emptyxml", "bigtext":
+				case "html", "bin", "m3u8", "cut", "stall", "badpdf", "emptyxml", "bigtext":
 					code = 200
+				case "wall":
+					code = 200
+					if visits[us] == 0 {
+						code = 302
+					}
 				case "redirect":
 					code = n.Code
 					if code == 0 {
@@ -261,14 +279,19 @@ func (d *SiteDef) Reference(seed string, opt Options) *Expect {
 				}
 				break
 			}
-			e.Attempts[us] = attempts
+			e.Attempts[us] += attempts
 			e.Order = append(e.Order, us)
-			if final == -1 || n == nil || kind == "cut" {
+			visits[us]++
+			if final == -1 || n == nil || kind == "cut" || kind == "stall" {
 				continue // failed for good (a body that breaks after the headers is not retried)
 			}
 			if isRedirect(final) {
 				if r.redirects < opt.MaxRedirect {
-					next = append(next, job{raw: n.Location, parent: r.u, kind: "redirect", depth: r.depth, redirects: r.redirects + 1})
+					loc := n.Location
+					if kind == "wall" {
+						loc = n.URL
+					}
+					next = append(next, job{raw: loc, parent: r.u, kind: "redirect", depth: r.depth, redirects: r.redirects + 1})
 				}
 				continue
 			}
@@ -278,10 +301,10 @@ func (d *SiteDef) Reference(seed string, opt Options) *Expect {
 			if r.depth > 2 {
 				continue
 			}
-			if r.depth == 1 && kind == "html" {
+			if r.depth == 1 && (kind == "html" || kind == "wall") {
 				continue
 			}
-			if kind == "html" || kind == "m3u8" {
+			if kind == "html" || kind == "m3u8" || kind == "wall" {
 				for _, ref := range n.Refs {
 					next = append(next, job{raw: ref, parent: r.u, kind: "asset", depth: r.depth + 1})
 				}
